@@ -1,4 +1,5 @@
 import Frp.Model.Release
+import Frp.Lemmas.RegSteps
 import Frp.Props.C09
 /-
   C10 — Everything a proxy or session held is released on every termination path.
@@ -441,6 +442,1002 @@ example : let s1 := (RState.init.register 1 (s "p") [kB]).1
           (s1.register 2 (s "q") [kA, kB]).2 = .conflict kB ∧ (s1.register 2 (s "q") [kA, kB]).1.held = s1.held := by
   decide +kernel
 example : ((RState.init.register 1 (s "p") [kA, kB]).1.sessionEnd 1).held = [] := by decide +kernel
+
+
+/-! ## Concurrent registrations (Frp/Model/RegSteps.lean)
+
+  The theorems above treat `RegisterProxy` as one indivisible step.  Here the registrations of several
+  sessions are interleaved section by section (quota+Exist | Run | Add), so that every failure step of
+  the property's quantifier is reachable — in particular "name taken concurrently" (`Res.inuse`) — and
+  the session's quota counter is part of the state.  All statements are for every schedule: the
+  invariant is proved by induction over arbitrary op lists of all sessions. -/
+namespace Conc
+open RegSteps
+
+/-- structural invariant: one holder per key, every holder is an owned proxy or a registration that is
+    past `Run`; the name table and the sessions' own tables describe the same proxies; at most one
+    registration in flight per session, never for a proxy the session already owns -/
+structure SInv (s : CState) : Prop where
+  keysNodup    : (s.held.map (·.1)).Nodup
+  holderKnown  : ∀ e ∈ s.held, (∃ o ∈ s.own, o.sid = e.2.sid ∧ o.name = e.2.name) ∨
+                   (∃ f ∈ s.flights, f.sid = e.2.sid ∧ f.name = e.2.name ∧ f.pc = .ran)
+  namesNodup   : (s.names.map (·.1)).Nodup
+  namesOwned   : ∀ e ∈ s.names, ∃ o ∈ s.own, o.sid = e.2 ∧ o.name = e.1
+  ownNamed     : ∀ o ∈ s.own, (o.name, o.sid) ∈ s.names
+  ownNodup     : (s.own.map (·.name)).Nodup
+  flightsNodup : (s.flights.map (·.sid)).Nodup
+  flightFresh  : ∀ f ∈ s.flights, ∀ o ∈ s.own, ¬ (o.sid = f.sid ∧ o.name = f.name)
+
+/-- **quota accounting**: every session's counter is exactly what it is charged for — the ports of the
+    proxies it owns plus the charge of its registration in flight (nothing when unlimited) -/
+def Accounted (s : CState) : Prop :=
+  ∀ x, s.quotaOf x = s.amt (ownSum s.own x + flightSum s.flights x)
+
+structure Inv (s : CState) : Prop where
+  struct : SInv s
+  quota  : Accounted s
+
+theorem sinv_congr {s t : CState} (h1 : t.held = s.held) (h2 : t.names = s.names) (h3 : t.own = s.own)
+    (h4 : t.flights = s.flights) (h : SInv s) : SInv t := by
+  obtain ⟨k, hk, n, no, on, ond, fn, ff⟩ := h
+  exact ⟨by rw [h1]; exact k, by rw [h1, h3, h4]; exact hk, by rw [h2]; exact n, by rw [h2, h3]; exact no,
+    by rw [h2, h3]; exact on, by rw [h3]; exact ond, by rw [h4]; exact fn, by rw [h3, h4]; exact ff⟩
+
+theorem inv_init (m : Nat) : Inv (CState.init m) := by
+  refine ⟨⟨?_, ?_, ?_, ?_, ?_, ?_, ?_, ?_⟩, ?_⟩ <;> simp [CState.init, Accounted, CState.quotaOf, CState.amt, ownSum, flightSum]
+
+theorem map_injOn_of_nodup {α β : Type} (φ : α → β) (l : List α) (h : (l.map φ).Nodup) {a b : α}
+    (ha : a ∈ l) (hb : b ∈ l) (e : φ a = φ b) : a = b := by
+  induction l with
+  | nil => simp at ha
+  | cons x xs ih =>
+    simp only [List.map_cons, List.nodup_cons] at h
+    rcases List.mem_cons.mp ha with ea | ea <;> rcases List.mem_cons.mp hb with eb | eb
+    · rw [ea, eb]
+    · exfalso; apply h.1; rw [← ea, e]; exact List.mem_map.mpr ⟨b, eb, rfl⟩
+    · exfalso; apply h.1; rw [← eb, ← e]; exact List.mem_map.mpr ⟨a, ea, rfl⟩
+    · exact ih h.2 ea eb
+
+theorem find_flight {s : CState} {sid : Nat} {f : Flight}
+    (h : s.flights.find? (fun f => f.sid = sid) = some f) : f ∈ s.flights ∧ f.sid = sid :=
+  ⟨List.mem_of_find?_eq_some h, by simpa using List.find?_some h⟩
+
+theorem nameTaken_iff (s : CState) (name : Str) : s.nameTaken name = true ↔ name ∈ s.names.map (·.1) := by
+  unfold CState.nameTaken
+  simp only [List.any_eq_true, decide_eq_true_eq, List.mem_map]
+
+theorem mem_rest {l : List Flight} {sid : Nat} {g : Flight} :
+    g ∈ l.filter (fun g => g.sid ≠ sid) ↔ g ∈ l ∧ g.sid ≠ sid := by
+  simp [List.mem_filter]
+
+theorem rest_nodup {l : List Flight} (h : (l.map (·.sid)).Nodup) (sid : Nat) :
+    ((l.filter (fun g => g.sid ≠ sid)).map (·.sid)).Nodup :=
+  List.Nodup.sublist (List.Sublist.map _ List.filter_sublist) h
+
+theorem sid_not_in_rest (l : List Flight) (sid : Nat) : sid ∉ (l.filter (fun g => g.sid ≠ sid)).map (·.sid) := by
+  intro h
+  obtain ⟨g, hg, e⟩ := List.mem_map.mp h
+  exact (mem_rest.mp hg).2 e
+
+
+theorem flight_eq {s : CState} (h : SInv s) {f g : Flight} (hf : f ∈ s.flights) (hg : g ∈ s.flights)
+    (e : g.sid = f.sid) : g = f :=
+  map_injOn_of_nodup (·.sid) s.flights h.flightsNodup hg hf e
+
+theorem not_busy_iff (s : CState) (sid : Nat) : s.busy sid = false ↔ sid ∉ s.flights.map (·.sid) := by
+  unfold CState.busy
+  constructor
+  · intro h hm
+    obtain ⟨g, hg, e⟩ := List.mem_map.mp hm
+    have : s.flights.any (fun f => f.sid = sid) = true := by
+      simp only [List.any_eq_true, decide_eq_true_eq]; exact ⟨g, hg, e⟩
+    rw [h] at this; cases this
+  · intro h
+    apply Bool.eq_false_iff.mpr
+    intro ha
+    simp only [List.any_eq_true, decide_eq_true_eq] at ha
+    obtain ⟨g, hg, e⟩ := ha
+    exact h (List.mem_map.mpr ⟨g, hg, e⟩)
+
+theorem nameTaken_charge (s : CState) (a b : Nat) (name : Str) :
+    (s.charge a b).nameTaken name = s.nameTaken name := by
+  unfold CState.nameTaken; rw [charge_names]
+
+/-! ### the cases of `begin` and `step` -/
+
+theorem begin_cases (s : CState) (sid : Nat) (name : Str) (keys : List Key) (n : Nat) :
+    (s.busy sid = true ∧ s.begin sid name keys n = (s, .busy)) ∨
+    (s.busy sid = false ∧ (s.maxPorts > 0 ∧ s.quotaOf sid + n > s.maxPorts) ∧
+      s.begin sid name keys n = (s, .quota)) ∨
+    (s.busy sid = false ∧ ¬ (s.maxPorts > 0 ∧ s.quotaOf sid + n > s.maxPorts) ∧ s.nameTaken name = true ∧
+      s.begin sid name keys n = ((s.charge sid n).refund sid n, .exists_)) ∨
+    (s.busy sid = false ∧ ¬ (s.maxPorts > 0 ∧ s.quotaOf sid + n > s.maxPorts) ∧ s.nameTaken name = false ∧
+      s.begin sid name keys n =
+        ({ s.charge sid n with
+            flights := { sid := sid, name := name, keys := keys, n := n, pc := .checked } :: (s.charge sid n).flights },
+         .parked .checked)) := by
+  unfold CState.begin
+  by_cases hb : s.busy sid = true
+  · left; exact ⟨hb, by rw [if_pos hb]⟩
+  · have hb' : s.busy sid = false := Bool.eq_false_iff.mpr hb
+    right
+    rw [if_neg hb]
+    by_cases hq : s.maxPorts > 0 ∧ s.quotaOf sid + n > s.maxPorts
+    · left; exact ⟨hb', hq, by rw [if_pos hq]⟩
+    · right
+      rw [if_neg hq]
+      simp only [nameTaken_charge]
+      by_cases ht : s.nameTaken name = true
+      · left; exact ⟨hb', hq, ht, by rw [if_pos ht]⟩
+      · right; exact ⟨hb', hq, Bool.eq_false_iff.mpr ht, by rw [if_neg ht]⟩
+
+theorem step_cases (s : CState) (sid : Nat) :
+    (s.flights.find? (fun f => f.sid = sid) = none ∧ s.step sid = (s, .noflight)) ∨
+    (∃ f held' k, s.flights.find? (fun f => f.sid = sid) = some f ∧ f.pc = .checked ∧
+      claim s.held ⟨sid, f.name⟩ f.keys = (held', some k) ∧
+      s.step sid = ((({ s with held := releaseAll held' ⟨sid, f.name⟩ } : CState).dropFlight sid).refund sid f.n,
+        .conflict k)) ∨
+    (∃ f held', s.flights.find? (fun f => f.sid = sid) = some f ∧ f.pc = .checked ∧
+      claim s.held ⟨sid, f.name⟩ f.keys = (held', none) ∧
+      s.step sid = ({ s with held := held',
+                             flights := { f with pc := .ran } :: s.flights.filter (fun g => g.sid ≠ sid) },
+        .parked .ran)) ∨
+    (∃ f, s.flights.find? (fun f => f.sid = sid) = some f ∧ f.pc = .ran ∧ s.nameTaken f.name = true ∧
+      s.step sid = ((({ s with held := releaseAll s.held ⟨sid, f.name⟩ } : CState).dropFlight sid).refund sid f.n,
+        .inuse)) ∨
+    (∃ f, s.flights.find? (fun f => f.sid = sid) = some f ∧ f.pc = .ran ∧ s.nameTaken f.name = false ∧
+      s.step sid = (({ s with names := (f.name, sid) :: s.names,
+                              own := { sid := sid, name := f.name, n := f.n } :: s.own } : CState).dropFlight sid,
+        .ok)) := by
+  unfold CState.step
+  cases hf : s.flights.find? (fun f => f.sid = sid) with
+  | none => left; exact ⟨rfl, rfl⟩
+  | some f =>
+    right
+    cases hpc : f.pc with
+    | checked =>
+      cases hc : claim s.held ⟨sid, f.name⟩ f.keys with
+      | mk held' r =>
+        cases r with
+        | some k => left; exact ⟨f, held', k, rfl, hpc, hc, by simp only [hpc, hc]⟩
+        | none => right; left; exact ⟨f, held', rfl, hpc, hc, by simp only [hpc, hc]⟩
+    | ran =>
+      right; right
+      by_cases ht : s.nameTaken f.name = true
+      · left; exact ⟨f, rfl, hpc, ht, by simp only [hpc, ht, if_true]⟩
+      · have ht' : s.nameTaken f.name = false := Bool.eq_false_iff.mpr ht
+        right; exact ⟨f, rfl, hpc, ht', by simp [hpc, ht']⟩
+
+
+/-! ### the structural invariant, step by step -/
+
+theorem sinv_add_flight {s t : CState} (h : SInv s) (nf : Flight)
+    (h1 : t.held = s.held) (h2 : t.names = s.names) (h3 : t.own = s.own) (h4 : t.flights = nf :: s.flights)
+    (hb : s.busy nf.sid = false) (hn : s.nameTaken nf.name = false) : SInv t := by
+  refine ⟨by rw [h1]; exact h.keysNodup, ?_, by rw [h2]; exact h.namesNodup, by rw [h2, h3]; exact h.namesOwned,
+    by rw [h2, h3]; exact h.ownNamed, by rw [h3]; exact h.ownNodup, ?_, ?_⟩
+  · intro e he
+    rw [h1] at he; rw [h3, h4]
+    rcases h.holderKnown e he with ho | ⟨f, hf, hh⟩
+    · left; exact ho
+    · right; exact ⟨f, List.mem_cons_of_mem _ hf, hh⟩
+  · rw [h4]
+    simp only [List.map_cons, List.nodup_cons]
+    exact ⟨(not_busy_iff s nf.sid).mp hb, h.flightsNodup⟩
+  · rw [h3, h4]
+    intro f hf o ho hh
+    rcases List.mem_cons.mp hf with e | e
+    · subst e
+      have := h.ownNamed o ho
+      have ht : s.nameTaken f.name = true := by
+        rw [nameTaken_iff]; exact List.mem_map.mpr ⟨(o.name, o.sid), this, hh.2⟩
+      rw [hn] at ht; cases ht
+    · exact h.flightFresh f e o ho hh
+
+theorem known_rest {s : CState} (h : SInv s) {f : Flight} (hf : f ∈ s.flights) {e : Key × Inst}
+    (hk : ∃ g ∈ s.flights, g.sid = e.2.sid ∧ g.name = e.2.name ∧ g.pc = .ran) :
+    (f.sid = e.2.sid ∧ f.name = e.2.name ∧ f.pc = .ran) ∨
+    (∃ g ∈ s.flights.filter (fun g => g.sid ≠ f.sid), g.sid = e.2.sid ∧ g.name = e.2.name ∧ g.pc = .ran) := by
+  obtain ⟨g, hg, hh⟩ := hk
+  by_cases e1 : g.sid = f.sid
+  · have := flight_eq h hf hg e1
+    subst this; left; exact hh
+  · right; exact ⟨g, mem_rest.mpr ⟨hg, e1⟩, hh⟩
+
+theorem sinv_run_ok {s t : CState} (h : SInv s) {f : Flight} (hf : f ∈ s.flights) (hpc : f.pc = .checked)
+    {held' : List (Key × Inst)} (hc : claim s.held ⟨f.sid, f.name⟩ f.keys = (held', none))
+    (h1 : t.held = held') (h2 : t.names = s.names) (h3 : t.own = s.own)
+    (h4 : t.flights = { f with pc := .ran } :: s.flights.filter (fun g => g.sid ≠ f.sid)) : SInv t := by
+  obtain ⟨new, c1, c2, c3⟩ := RegSteps.claim_shape s.held ⟨f.sid, f.name⟩ f.keys h.keysNodup
+  rw [hc] at c1 c3
+  simp only at c1 c3
+  refine ⟨by rw [h1]; exact c3, ?_, by rw [h2]; exact h.namesNodup, by rw [h2, h3]; exact h.namesOwned,
+    by rw [h2, h3]; exact h.ownNamed, by rw [h3]; exact h.ownNodup, ?_, ?_⟩
+  · intro e he
+    rw [h1, c1] at he; rw [h3, h4]
+    rcases List.mem_append.mp he with he | he
+    · right
+      refine ⟨{ f with pc := .ran }, List.mem_cons_self, ?_, ?_, rfl⟩
+      · rw [c2 e he]
+      · rw [c2 e he]
+    · rcases h.holderKnown e he with ho | hk
+      · left; exact ho
+      · rcases known_rest h hf hk with ⟨_, _, hp⟩ | ⟨g, hg, hh⟩
+        · rw [hpc] at hp; cases hp
+        · right; exact ⟨g, List.mem_cons_of_mem _ hg, hh⟩
+  · rw [h4]
+    simp only [List.map_cons, List.nodup_cons]
+    exact ⟨sid_not_in_rest s.flights f.sid, rest_nodup h.flightsNodup f.sid⟩
+  · rw [h3, h4]
+    intro g hg o ho hh
+    rcases List.mem_cons.mp hg with e | e
+    · subst e; exact h.flightFresh f hf o ho hh
+    · exact h.flightFresh g (mem_rest.mp e).1 o ho hh
+
+/-- a registration that has not passed `Run` holds nothing -/
+theorem checked_holds_nothing {s : CState} (h : SInv s) {f : Flight} (hf : f ∈ s.flights)
+    (hpc : f.pc = .checked) : ∀ e ∈ s.held, e.2 ≠ ⟨f.sid, f.name⟩ := by
+  intro e he hh
+  rcases h.holderKnown e he with ⟨o, ho, h1, h2⟩ | ⟨g, hg, h1, _, h3⟩
+  · rw [hh] at h1 h2; exact h.flightFresh f hf o ho ⟨h1, h2⟩
+  · rw [hh] at h1
+    have := flight_eq h hf hg h1
+    subst this; rw [hpc] at h3; cases h3
+
+/-- a failed registration: the flight is gone and the held table lost (at most) entries of that object -/
+theorem sinv_fail {s t : CState} (h : SInv s) {f : Flight} (hf : f ∈ s.flights)
+    (h1 : t.held = releaseAll s.held ⟨f.sid, f.name⟩) (h2 : t.names = s.names) (h3 : t.own = s.own)
+    (h4 : t.flights = s.flights.filter (fun g => g.sid ≠ f.sid)) : SInv t := by
+  refine ⟨?_, ?_, by rw [h2]; exact h.namesNodup, by rw [h2, h3]; exact h.namesOwned,
+    by rw [h2, h3]; exact h.ownNamed, by rw [h3]; exact h.ownNodup, by rw [h4]; exact rest_nodup h.flightsNodup f.sid, ?_⟩
+  · rw [h1]; exact List.Nodup.sublist (List.Sublist.map _ List.filter_sublist) h.keysNodup
+  · intro e he
+    rw [h1] at he; rw [h3, h4]
+    have hm := List.mem_filter.mp he
+    have hne : e.2 ≠ ⟨f.sid, f.name⟩ := by simpa using hm.2
+    rcases h.holderKnown e hm.1 with ho | hk
+    · left; exact ho
+    · rcases known_rest h hf hk with ⟨a, b, _⟩ | hr
+      · exfalso; apply hne
+        cases e with
+        | mk k i => cases i with
+          | mk a' b' => simp only at a b; rw [a, b]
+      · right; exact hr
+  · rw [h3, h4]
+    intro g hg o ho hh
+    exact h.flightFresh g (mem_rest.mp hg).1 o ho hh
+
+theorem sinv_ok {s t : CState} (h : SInv s) {f : Flight} (hf : f ∈ s.flights) (_hpc : f.pc = .ran)
+    (hn : s.nameTaken f.name = false)
+    (h1 : t.held = s.held) (h2 : t.names = (f.name, f.sid) :: s.names)
+    (h3 : t.own = { sid := f.sid, name := f.name, n := f.n } :: s.own)
+    (h4 : t.flights = s.flights.filter (fun g => g.sid ≠ f.sid)) : SInv t := by
+  have hfree : f.name ∉ s.names.map (·.1) := by
+    intro hm
+    have := (nameTaken_iff s f.name).mpr hm
+    rw [hn] at this; cases this
+  refine ⟨by rw [h1]; exact h.keysNodup, ?_, ?_, ?_, ?_, ?_, by rw [h4]; exact rest_nodup h.flightsNodup f.sid, ?_⟩
+  · intro e he
+    rw [h1] at he; rw [h3, h4]
+    rcases h.holderKnown e he with ⟨o, ho, hh⟩ | hk
+    · left; exact ⟨o, List.mem_cons_of_mem _ ho, hh⟩
+    · rcases known_rest h hf hk with ⟨a, b, _⟩ | hr
+      · left; exact ⟨_, List.mem_cons_self, a, b⟩
+      · right; exact hr
+  · rw [h2]; simp only [List.map_cons, List.nodup_cons]; exact ⟨hfree, h.namesNodup⟩
+  · rw [h2, h3]
+    intro e he
+    rcases List.mem_cons.mp he with e1 | e1
+    · subst e1; exact ⟨_, List.mem_cons_self, rfl, rfl⟩
+    · obtain ⟨o, ho, hh⟩ := h.namesOwned e e1
+      exact ⟨o, List.mem_cons_of_mem _ ho, hh⟩
+  · rw [h2, h3]
+    intro o ho
+    rcases List.mem_cons.mp ho with e1 | e1
+    · subst e1; exact List.mem_cons_self
+    · exact List.mem_cons_of_mem _ (h.ownNamed o e1)
+  · rw [h3]; simp only [List.map_cons, List.nodup_cons]
+    refine ⟨?_, h.ownNodup⟩
+    intro hm
+    obtain ⟨o, ho, e1⟩ := List.mem_map.mp hm
+    apply hfree
+    exact List.mem_map.mpr ⟨(o.name, o.sid), h.ownNamed o ho, e1⟩
+  · rw [h3, h4]
+    intro g hg o ho hh
+    have hg' := mem_rest.mp hg
+    rcases List.mem_cons.mp ho with e1 | e1
+    · subst e1; exact hg'.2 hh.1.symm
+    · exact h.flightFresh g hg'.1 o e1 hh
+
+theorem sinv_drop {s : CState} (h : SInv s) (sid : Nat) (name : Str)
+    (hown : ∃ o ∈ s.own, o.sid = sid ∧ o.name = name) : SInv (s.dropProxy sid name) := by
+  obtain ⟨o0, ho0, hs0, hn0⟩ := hown
+  unfold CState.dropProxy
+  refine ⟨?_, ?_, ?_, ?_, ?_, ?_, h.flightsNodup, ?_⟩
+  · exact List.Nodup.sublist (List.Sublist.map _ List.filter_sublist) h.keysNodup
+  · intro e he
+    have hm := List.mem_filter.mp he
+    have hne : e.2 ≠ ⟨sid, name⟩ := by simpa using hm.2
+    rcases h.holderKnown e hm.1 with ⟨o, ho, a, b⟩ | hk
+    · left
+      refine ⟨o, List.mem_filter.mpr ⟨ho, ?_⟩, a, b⟩
+      apply decide_eq_true
+      intro hh
+      apply hne
+      cases e with
+      | mk k i => cases i with
+        | mk a' b' => simp only at a b; rw [← a, ← b, hh.1, hh.2]
+    · right; exact hk
+  · exact List.Nodup.sublist (List.Sublist.map _ List.filter_sublist) h.namesNodup
+  · intro e he
+    have hm := List.mem_filter.mp he
+    have hne : e.1 ≠ name := by simpa using hm.2
+    obtain ⟨o, ho, a, b⟩ := h.namesOwned e hm.1
+    refine ⟨o, List.mem_filter.mpr ⟨ho, ?_⟩, a, b⟩
+    apply decide_eq_true
+    intro hh
+    exact hne (b ▸ hh.2)
+  · intro o ho
+    have hm := List.mem_filter.mp ho
+    have hne : ¬ (o.sid = sid ∧ o.name = name) := of_decide_eq_true hm.2
+    apply List.mem_filter.mpr
+    refine ⟨h.ownNamed o hm.1, ?_⟩
+    apply decide_eq_true
+    intro hh
+    simp only at hh
+    have : o = o0 := map_injOn_of_nodup (·.name) s.own h.ownNodup hm.1 ho0 (by rw [hh, hn0])
+    exact hne ⟨this ▸ hs0, hh⟩
+  · exact List.Nodup.sublist (List.Sublist.map _ List.filter_sublist) h.ownNodup
+  · intro f hf o ho hh
+    exact h.flightFresh f hf o (List.mem_filter.mp ho).1 hh
+
+
+/-! ### quota accounting, step by step -/
+
+theorem acc_of {s t : CState} (hm : t.maxPorts = s.maxPorts)
+    (h : ∀ x, t.quotaOf x = s.amt (ownSum t.own x + flightSum t.flights x)) : Accounted t := by
+  intro x; rw [amt_eq s t hm]; exact h x
+
+/-- the charge of a registration refused by `Exist` and its deferred rollback cancel -/
+theorem charge_refund_quotaOf (s : CState) (sid n x : Nat) :
+    ((s.charge sid n).refund sid n).quotaOf x = s.quotaOf x := by
+  rw [quotaOf_refund, amt_eq s _ (charge_maxPorts s sid n), quotaOf_charge, quotaOf_charge]
+  by_cases e : x = sid
+  · subst e; simp only [if_true]; omega
+  · simp only [if_neg e]
+
+theorem inv_begin {s : CState} (h : Inv s) (sid : Nat) (name : Str) (keys : List Key) (n : Nat) :
+    Inv (s.begin sid name keys n).1 := by
+  rcases begin_cases s sid name keys n with ⟨_, e⟩ | ⟨_, _, e⟩ | ⟨hb, hq, ht, e⟩ | ⟨hb, hq, ht, e⟩
+  · rw [e]; exact h
+  · rw [e]; exact h
+  · rw [e]
+    refine ⟨sinv_congr (by simp) (by simp) (by simp) (by simp) h.struct, ?_⟩
+    apply acc_of (s := s) (by simp)
+    intro x
+    rw [charge_refund_quotaOf]
+    simp only [refund_own, refund_flights, charge_own, charge_flights]
+    exact h.quota x
+  · rw [e]
+    refine ⟨sinv_add_flight h.struct { sid := sid, name := name, keys := keys, n := n, pc := .checked }
+      (by simp) (by simp) (by simp) (by simp) hb ht, ?_⟩
+    apply acc_of (s := s) (by simp)
+    intro x
+    show (s.charge sid n).quotaOf x = _
+    rw [quotaOf_charge]
+    simp only [charge_own, charge_flights, flightSum_cons]
+    have hx := h.quota x
+    have hs := h.quota sid
+    by_cases e1 : x = sid
+    · subst e1
+      simp only [if_true]
+      rw [hx]
+      unfold CState.amt; split <;> omega
+    · have e2 : ¬ sid = x := fun e' => e1 e'.symm
+      simp only [if_neg e1, if_neg e2, Nat.zero_add]
+      exact hx
+
+theorem inv_step {s : CState} (h : Inv s) (sid : Nat) : Inv (s.step sid).1 := by
+  rcases step_cases s sid with ⟨_, e⟩ | ⟨f, held', k, hf, hpc, hc, e⟩ | ⟨f, held', hf, hpc, hc, e⟩ |
+      ⟨f, hf, hpc, ht, e⟩ | ⟨f, hf, hpc, ht, e⟩
+  · rw [e]; exact h
+  · -- Run fails: what was claimed is given back, the charge is refunded
+    obtain ⟨hfm, hsid⟩ := find_flight hf
+    subst hsid
+    rw [e]
+    obtain ⟨new, c1, c2, _⟩ := RegSteps.claim_shape s.held ⟨f.sid, f.name⟩ f.keys h.struct.keysNodup
+    rw [hc] at c1; simp only at c1
+    have hheld : RegSteps.releaseAll held' ⟨f.sid, f.name⟩ = RegSteps.releaseAll s.held ⟨f.sid, f.name⟩ := by
+      rw [c1, RegSteps.releaseAll_append, releaseAll_all_held c2]; rfl
+    refine ⟨sinv_fail h.struct hfm (by simp [CState.dropFlight, hheld]) (by simp [CState.dropFlight])
+      (by simp [CState.dropFlight]) (by simp [CState.dropFlight]), ?_⟩
+    apply acc_of (s := s) (by simp [CState.dropFlight])
+    intro x
+    rw [quotaOf_refund]
+    simp only [refund_own, refund_flights, CState.dropFlight]
+    show (if x = f.sid then s.quotaOf f.sid - CState.amt _ f.n else s.quotaOf x) = _
+    rw [amt_eq s _ rfl]
+    have hx := h.quota x
+    have hfs := flightSum_of_mem s.flights h.struct.flightsNodup f hfm
+    by_cases e1 : x = f.sid
+    · subst e1
+      rw [if_pos rfl, hx, flightSum_filter_self, hfs]
+      unfold CState.amt; split <;> omega
+    · rw [if_neg e1, flightSum_filter_other _ _ _ e1]; exact hx
+  · -- Run succeeds
+    obtain ⟨hfm, hsid⟩ := find_flight hf
+    subst hsid
+    rw [e]
+    refine ⟨sinv_run_ok h.struct hfm hpc hc rfl rfl rfl rfl, ?_⟩
+    apply acc_of (s := s) (by rfl)
+    intro x
+    show s.quotaOf x = s.amt (ownSum s.own x + flightSum ({ f with pc := .ran } :: s.flights.filter (fun g => g.sid ≠ f.sid)) x)
+    rw [flightSum_cons]
+    have hx := h.quota x
+    have hfs := flightSum_of_mem s.flights h.struct.flightsNodup f hfm
+    by_cases e1 : x = f.sid
+    · subst e1
+      rw [flightSum_filter_self, hx, hfs]
+      simp only [if_true, Nat.add_zero]
+    · have e2 : ¬ f.sid = x := fun e' => e1 e'.symm
+      simp only [if_neg e2, Nat.zero_add]
+      rw [flightSum_filter_other _ _ _ e1]; exact hx
+  · -- Add fails (name taken concurrently): deferred Close, the charge is refunded
+    obtain ⟨hfm, hsid⟩ := find_flight hf
+    subst hsid
+    rw [e]
+    refine ⟨sinv_fail h.struct hfm (by simp [CState.dropFlight]) (by simp [CState.dropFlight])
+      (by simp [CState.dropFlight]) (by simp [CState.dropFlight]), ?_⟩
+    apply acc_of (s := s) (by simp [CState.dropFlight])
+    intro x
+    rw [quotaOf_refund]
+    simp only [refund_own, refund_flights, CState.dropFlight]
+    show (if x = f.sid then s.quotaOf f.sid - CState.amt _ f.n else s.quotaOf x) = _
+    rw [amt_eq s _ rfl]
+    have hx := h.quota x
+    have hfs := flightSum_of_mem s.flights h.struct.flightsNodup f hfm
+    by_cases e1 : x = f.sid
+    · subst e1
+      rw [if_pos rfl, hx, flightSum_filter_self, hfs]
+      unfold CState.amt; split <;> omega
+    · rw [if_neg e1, flightSum_filter_other _ _ _ e1]; exact hx
+  · -- Add succeeds
+    obtain ⟨hfm, hsid⟩ := find_flight hf
+    subst hsid
+    rw [e]
+    refine ⟨sinv_ok h.struct hfm hpc ht rfl rfl rfl rfl, ?_⟩
+    apply acc_of (s := s) (by rfl)
+    intro x
+    show s.quotaOf x = s.amt (ownSum ({ sid := f.sid, name := f.name, n := f.n } :: s.own) x +
+      flightSum (s.flights.filter (fun g => g.sid ≠ f.sid)) x)
+    rw [ownSum_cons]
+    have hx := h.quota x
+    have hfs := flightSum_of_mem s.flights h.struct.flightsNodup f hfm
+    by_cases e1 : x = f.sid
+    · subst e1
+      rw [flightSum_filter_self, hx, hfs]
+      simp only [if_true, Nat.add_zero]
+      rw [Nat.add_comm]
+    · have e2 : ¬ f.sid = x := fun e' => e1 e'.symm
+      simp only [if_neg e2, Nat.zero_add]
+      rw [flightSum_filter_other _ _ _ e1]; exact hx
+
+
+/-! ### close and session end -/
+
+theorem close_cases (s : CState) (sid : Nat) (name : Str) :
+    (s.busy sid = true ∧ s.close sid name = (s, .busy)) ∨
+    (s.busy sid = false ∧ s.own.find? (fun o => o.sid = sid ∧ o.name = name) = none ∧
+      s.close sid name = (s, .done)) ∨
+    (∃ o, s.busy sid = false ∧ o ∈ s.own ∧ o.sid = sid ∧ o.name = name ∧
+      s.close sid name = ((s.refund sid o.n).dropProxy sid name, .done)) := by
+  unfold CState.close
+  by_cases hb : s.busy sid = true
+  · left; exact ⟨hb, by rw [if_pos hb]⟩
+  · have hb' : s.busy sid = false := Bool.eq_false_iff.mpr hb
+    right
+    rw [if_neg hb]
+    cases hf : s.own.find? (fun o => o.sid = sid ∧ o.name = name) with
+    | none => left; exact ⟨hb', rfl, rfl⟩
+    | some o =>
+      right
+      have hp := List.find?_some hf
+      simp only [decide_eq_true_eq] at hp
+      exact ⟨o, hb', List.mem_of_find?_eq_some hf, hp.1, hp.2, rfl⟩
+
+theorem inv_close {s : CState} (h : Inv s) (sid : Nat) (name : Str) : Inv (s.close sid name).1 := by
+  rcases close_cases s sid name with ⟨_, e⟩ | ⟨_, _, e⟩ | ⟨o, hb, ho, hs, hn, e⟩
+  · rw [e]; exact h
+  · rw [e]; exact h
+  · rw [e]
+    have hs1 : SInv (s.refund sid o.n) := sinv_congr (by simp) (by simp) (by simp) (by simp) h.struct
+    refine ⟨sinv_drop hs1 sid name ⟨o, by simpa using ho, hs, hn⟩, ?_⟩
+    apply acc_of (s := s) (by simp [CState.dropProxy])
+    intro x
+    show (s.refund sid o.n).quotaOf x = s.amt (ownSum ((s.refund sid o.n).own.filter
+      (fun p => ¬ (p.sid = sid ∧ p.name = name))) x + flightSum (s.refund sid o.n).flights x)
+    rw [quotaOf_refund, refund_own, refund_flights]
+    have hx := h.quota x
+    subst hs; subst hn
+    by_cases e1 : x = o.sid
+    · subst e1
+      have := ownSum_drop_self s.own h.struct.ownNodup o ho
+      rw [if_pos rfl, hx]
+      unfold CState.amt; split <;> omega
+    · rw [if_neg e1, ownSum_drop_other _ _ _ _ e1]; exact hx
+
+/-- `Control.worker`'s loop over `ctl.proxies` -/
+def dropAll (s : CState) (sid : Nat) (ns : List Str) : CState :=
+  ns.foldl (fun st n => st.dropProxy sid n) s
+
+theorem inst_eq_iff (i : Inst) (sid : Nat) (name : Str) : i = ⟨sid, name⟩ ↔ i.sid = sid ∧ i.name = name := by
+  cases i with
+  | mk a b => simp
+
+theorem dropAll_spec (sid : Nat) (ns : List Str) :
+    ∀ s : CState, SInv s → ns.Nodup → (∀ n ∈ ns, ∃ o ∈ s.own, o.sid = sid ∧ o.name = n) →
+      SInv (dropAll s sid ns) ∧ (dropAll s sid ns).flights = s.flights ∧
+      (dropAll s sid ns).quota = s.quota ∧ (dropAll s sid ns).maxPorts = s.maxPorts ∧
+      (dropAll s sid ns).own = s.own.filter (fun o => ¬ (o.sid = sid ∧ o.name ∈ ns)) ∧
+      (dropAll s sid ns).names = s.names.filter (fun e => e.1 ∉ ns) ∧
+      (dropAll s sid ns).held = s.held.filter (fun e => ¬ (e.2.sid = sid ∧ e.2.name ∈ ns)) := by
+  induction ns with
+  | nil =>
+    intro s h _ _
+    refine ⟨h, rfl, rfl, rfl, ?_, ?_, ?_⟩
+    · exact (List.filter_eq_self.mpr (fun _ _ => by simp)).symm
+    · exact (List.filter_eq_self.mpr (fun _ _ => by simp)).symm
+    · exact (List.filter_eq_self.mpr (fun _ _ => by simp)).symm
+  | cons n ns ih =>
+    intro s h hnd hown
+    have hnd' := List.nodup_cons.mp hnd
+    have h1 : SInv (s.dropProxy sid n) := sinv_drop h sid n (hown n List.mem_cons_self)
+    have hown' : ∀ m ∈ ns, ∃ o ∈ (s.dropProxy sid n).own, o.sid = sid ∧ o.name = m := by
+      intro m hm
+      obtain ⟨o, ho, a, b⟩ := hown m (List.mem_cons_of_mem _ hm)
+      refine ⟨o, List.mem_filter.mpr ⟨ho, ?_⟩, a, b⟩
+      apply decide_eq_true
+      intro hh
+      exact hnd'.1 (by rw [← hh.2, b]; exact hm)
+    obtain ⟨i1, i2, i3, i4, i5, i6, i7⟩ := ih (s.dropProxy sid n) h1 hnd'.2 hown'
+    show SInv (dropAll (s.dropProxy sid n) sid ns) ∧ (dropAll (s.dropProxy sid n) sid ns).flights = _ ∧
+      (dropAll (s.dropProxy sid n) sid ns).quota = _ ∧ (dropAll (s.dropProxy sid n) sid ns).maxPorts = _ ∧
+      (dropAll (s.dropProxy sid n) sid ns).own = _ ∧ (dropAll (s.dropProxy sid n) sid ns).names = _ ∧
+      (dropAll (s.dropProxy sid n) sid ns).held = _
+    refine ⟨i1, i2, i3, i4, ?_, ?_, ?_⟩
+    · rw [i5]
+      show (s.own.filter _).filter _ = _
+      rw [List.filter_filter]
+      apply List.filter_congr
+      intro o _
+      by_cases a : o.sid = sid <;> by_cases b : o.name = n <;> by_cases c : o.name ∈ ns <;> simp [a, b, c]
+    · rw [i6]
+      show (s.names.filter _).filter _ = _
+      rw [List.filter_filter]
+      apply List.filter_congr
+      intro e _
+      by_cases b : e.1 = n <;> by_cases c : e.1 ∈ ns <;> simp [b, c]
+    · rw [i7]
+      show (RegSteps.releaseAll s.held ⟨sid, n⟩).filter _ = _
+      unfold RegSteps.releaseAll
+      rw [List.filter_filter]
+      apply List.filter_congr
+      intro e _
+      have := inst_eq_iff e.2 sid n
+      by_cases a : e.2.sid = sid <;> by_cases b : e.2.name = n <;> by_cases c : e.2.name ∈ ns <;>
+        simp [a, b, c, this]
+
+theorem sessionEnd_cases (s : CState) (sid : Nat) :
+    (s.busy sid = true ∧ s.sessionEnd sid = (s, .busy)) ∨
+    (s.busy sid = false ∧ s.sessionEnd sid =
+      ({ dropAll s sid (s.namesOf sid) with quota := (dropAll s sid (s.namesOf sid)).quota.filter (fun e => e.1 ≠ sid) },
+       .done)) := by
+  unfold CState.sessionEnd
+  by_cases hb : s.busy sid = true
+  · left; exact ⟨hb, by rw [if_pos hb]⟩
+  · right; exact ⟨Bool.eq_false_iff.mpr hb, by rw [if_neg hb]; rfl⟩
+
+theorem mem_namesOf (s : CState) (sid : Nat) (n : Str) :
+    n ∈ s.namesOf sid ↔ ∃ o ∈ s.own, o.sid = sid ∧ o.name = n := by
+  unfold CState.namesOf
+  simp only [List.mem_map, List.mem_filter, decide_eq_true_eq]
+  constructor
+  · rintro ⟨o, ⟨ho, a⟩, b⟩; exact ⟨o, ho, a, b⟩
+  · rintro ⟨o, ho, a, b⟩; exact ⟨o, ⟨ho, a⟩, b⟩
+
+theorem namesOf_nodup {s : CState} (h : SInv s) (sid : Nat) : (s.namesOf sid).Nodup := by
+  unfold CState.namesOf
+  exact List.Nodup.sublist (List.Sublist.map _ List.filter_sublist) h.ownNodup
+
+theorem ownSum_none (l : List Own) (sid : Nat) (h : ∀ o ∈ l, o.sid ≠ sid) : ownSum l sid = 0 := by
+  induction l with
+  | nil => rfl
+  | cons o os ih =>
+    rw [ownSum_cons, if_neg (h o List.mem_cons_self), ih (fun p hp => h p (List.mem_cons_of_mem _ hp))]
+
+theorem ownSum_filter_other (l : List Own) (p : Own → Bool) (sid x : Nat)
+    (hp : ∀ o ∈ l, p o = false → o.sid = sid) (hx : x ≠ sid) : ownSum (l.filter p) x = ownSum l x := by
+  induction l with
+  | nil => rfl
+  | cons o os ih =>
+    have ih' := ih (fun q hq => hp q (List.mem_cons_of_mem _ hq))
+    rw [List.filter_cons]
+    split
+    · rw [ownSum_cons, ownSum_cons, ih']
+    · rename_i hpo
+      have : o.sid = sid := hp o List.mem_cons_self (Bool.eq_false_iff.mpr hpo)
+      have hne : ¬ o.sid = x := fun e => hx (e ▸ this)
+      rw [ih', ownSum_cons, if_neg hne, Nat.zero_add]
+
+/-- **end of a session** (its registration handler is idle): exactly the session's own proxies are
+    dropped — every key they held, their names — nothing of other sessions, and the counter starts
+    from 0 again for a later session -/
+theorem sessionEnd_spec {s : CState} (h : Inv s) (sid : Nat) (hb : s.busy sid = false) :
+    (s.sessionEnd sid).1.own = s.own.filter (fun o => o.sid ≠ sid) ∧
+    (s.sessionEnd sid).1.names = s.names.filter (fun e => e.2 ≠ sid) ∧
+    (s.sessionEnd sid).1.held = s.held.filter (fun e => e.2.sid ≠ sid) ∧
+    (s.sessionEnd sid).1.flights = s.flights ∧
+    (∀ x, (s.sessionEnd sid).1.quotaOf x = if x = sid then 0 else s.quotaOf x) ∧
+    Inv (s.sessionEnd sid).1 := by
+  rcases sessionEnd_cases s sid with ⟨hb', _⟩ | ⟨_, e⟩
+  · rw [hb] at hb'; cases hb'
+  rw [e]
+  obtain ⟨i1, i2, i3, i4, i5, i6, i7⟩ := dropAll_spec sid (s.namesOf sid) s h.struct (namesOf_nodup h.struct sid)
+    (fun n hn => (mem_namesOf s sid n).mp hn)
+  have hown : (dropAll s sid (s.namesOf sid)).own = s.own.filter (fun o => o.sid ≠ sid) := by
+    rw [i5]
+    apply List.filter_congr
+    intro o ho
+    by_cases a : o.sid = sid
+    · have : o.name ∈ s.namesOf sid := (mem_namesOf s sid o.name).mpr ⟨o, ho, a, rfl⟩
+      simp [a, this]
+    · simp [a]
+  have hnames : (dropAll s sid (s.namesOf sid)).names = s.names.filter (fun e => e.2 ≠ sid) := by
+    rw [i6]
+    apply List.filter_congr
+    intro e he
+    obtain ⟨o, ho, a, b⟩ := h.struct.namesOwned e he
+    by_cases c : e.2 = sid
+    · have : e.1 ∈ s.namesOf sid := (mem_namesOf s sid e.1).mpr ⟨o, ho, a.trans c, b⟩
+      simp [c, this]
+    · have : e.1 ∉ s.namesOf sid := by
+        intro hm
+        obtain ⟨o', ho', a', b'⟩ := (mem_namesOf s sid e.1).mp hm
+        have : o' = o := map_injOn_of_nodup (·.name) s.own h.struct.ownNodup ho' ho (by rw [b', b])
+        exact c (by rw [← a, ← this, a'])
+      simp [c, this]
+  have hheld : (dropAll s sid (s.namesOf sid)).held = s.held.filter (fun e => e.2.sid ≠ sid) := by
+    rw [i7]
+    apply List.filter_congr
+    intro e he
+    by_cases a : e.2.sid = sid
+    · have : e.2.name ∈ s.namesOf sid := by
+        rcases h.struct.holderKnown e he with ⟨o, ho, a1, b1⟩ | ⟨f, hf, a1, _⟩
+        · exact (mem_namesOf s sid e.2.name).mpr ⟨o, ho, a1.trans a, b1⟩
+        · exfalso
+          exact ((not_busy_iff s sid).mp hb) (List.mem_map.mpr ⟨f, hf, a1.trans a⟩)
+      simp [a, this]
+    · simp [a]
+  have hq : ∀ x, CState.quotaOf { dropAll s sid (s.namesOf sid) with
+      quota := (dropAll s sid (s.namesOf sid)).quota.filter (fun e => e.1 ≠ sid) } x =
+      if x = sid then 0 else s.quotaOf x := by
+    intro x
+    unfold CState.quotaOf
+    simp only [i3]
+    by_cases e1 : x = sid
+    · subst e1; rw [lookup_filter_self, if_pos rfl]; rfl
+    · rw [lookup_filter_ne _ _ _ e1, if_neg e1]
+  refine ⟨hown, hnames, hheld, i2, hq, ⟨sinv_congr (by rfl) (by rfl) (by rfl) (by rfl) i1, ?_⟩⟩
+  apply acc_of (s := s) (by exact i4)
+  intro x
+  rw [hq x]
+  show _ = s.amt (ownSum (dropAll s sid (s.namesOf sid)).own x + flightSum (dropAll s sid (s.namesOf sid)).flights x)
+  rw [hown, i2]
+  by_cases e1 : x = sid
+  · subst e1
+    rw [if_pos rfl, flightSum_not_busy _ _ hb, ownSum_none]
+    · unfold CState.amt; split <;> rfl
+    · intro o ho; simpa using (List.mem_filter.mp ho).2
+  · rw [if_neg e1, ownSum_filter_other _ _ sid x _ e1]
+    · exact h.quota x
+    · intro o _ hp; simpa using hp
+
+theorem inv_sessionEnd {s : CState} (h : Inv s) (sid : Nat) : Inv (s.sessionEnd sid).1 := by
+  rcases sessionEnd_cases s sid with ⟨_, e⟩ | ⟨hb, _⟩
+  · rw [e]; exact h
+  · exact (sessionEnd_spec h sid hb).2.2.2.2.2
+
+
+/-! ## Theorems (all schedules) -/
+
+inductive Op
+  | begin (sid : Nat) (name : Str) (keys : List Key) (n : Nat)
+  | step (sid : Nat)
+  | close (sid : Nat) (name : Str)
+  | sessionEnd (sid : Nat)
+
+def apply (s : CState) : Op → CState
+  | .begin sid name keys n => (s.begin sid name keys n).1
+  | .step sid => (s.step sid).1
+  | .close sid name => (s.close sid name).1
+  | .sessionEnd sid => (s.sessionEnd sid).1
+
+/-- **every schedule**: whatever the sessions do and however the sections of their concurrent
+    registrations are interleaved, the tables stay consistent and every quota counter is exactly the
+    charge of what its session owns or is registering -/
+theorem inv_reachable (m : Nat) (ops : List Op) : Inv (ops.foldl apply (CState.init m)) := by
+  suffices hh : ∀ s, Inv s → Inv (ops.foldl apply s) from hh _ (inv_init m)
+  induction ops with
+  | nil => intro s h; exact h
+  | cons op ops ih =>
+    intro s h
+    apply ih
+    cases op with
+    | begin sid name keys n => exact inv_begin h sid name keys n
+    | step sid => exact inv_step h sid
+    | close sid name => exact inv_close h sid name
+    | sessionEnd sid => exact inv_sessionEnd h sid
+
+/-- a session that is not inside `RegisterProxy` is charged for exactly the proxies it owns -/
+theorem quota_exact_idle {s : CState} (h : Inv s) (sid : Nat) (hb : s.busy sid = false) :
+    s.quotaOf sid = s.amt (ownSum s.own sid) := by
+  rw [h.quota sid, flightSum_not_busy _ _ hb, Nat.add_zero]
+
+/-- a registration refused at once (session busy, quota, name exists) changes nothing -/
+theorem begin_refused_unchanged (s : CState) (sid : Nat) (name : Str) (keys : List Key) (n : Nat)
+    (hr : (s.begin sid name keys n).2 ≠ .parked .checked) :
+    (s.begin sid name keys n).1.held = s.held ∧ (s.begin sid name keys n).1.names = s.names ∧
+    (s.begin sid name keys n).1.own = s.own ∧ (s.begin sid name keys n).1.flights = s.flights ∧
+    ∀ x, (s.begin sid name keys n).1.quotaOf x = s.quotaOf x := by
+  rcases begin_cases s sid name keys n with ⟨_, e⟩ | ⟨_, _, e⟩ | ⟨_, _, _, e⟩ | ⟨_, _, _, e⟩
+  · rw [e]; exact ⟨rfl, rfl, rfl, rfl, fun _ => rfl⟩
+  · rw [e]; exact ⟨rfl, rfl, rfl, rfl, fun _ => rfl⟩
+  · rw [e]; exact ⟨by simp, by simp, by simp, by simp, charge_refund_quotaOf s sid n⟩
+  · rw [e] at hr; exact absurd rfl hr
+
+/-- **a registration that fails part-way leaves nothing behind** — at `Run` (conflict at any claim) or
+    at `Add` (**name taken concurrently** by another session's registration that passed `Exist` at the
+    same time): the object holds no key any more, every other holder keeps exactly its keys, name table
+    and own tables are untouched, and the session's quota counter is back to the charge of what it owns.
+    No other session's counter moves. -/
+theorem step_failure_releases {s : CState} (h : Inv s) (sid : Nat)
+    (hr : (s.step sid).2 = .inuse ∨ ∃ k, (s.step sid).2 = .conflict k) :
+    ∃ f ∈ s.flights, f.sid = sid ∧
+      (s.step sid).1.held = s.held.filter (fun e => e.2 ≠ ⟨sid, f.name⟩) ∧
+      (s.step sid).1.names = s.names ∧ (s.step sid).1.own = s.own ∧
+      (s.step sid).1.flights = s.flights.filter (fun g => g.sid ≠ sid) ∧
+      (s.step sid).1.quotaOf sid = s.amt (ownSum s.own sid) ∧
+      ∀ x, x ≠ sid → (s.step sid).1.quotaOf x = s.quotaOf x := by
+  have hi := inv_step h sid
+  rcases step_cases s sid with ⟨_, e⟩ | ⟨f, held', k, hf, hpc, hc, e⟩ | ⟨f, held', hf, hpc, hc, e⟩ |
+      ⟨f, hf, hpc, ht, e⟩ | ⟨f, hf, hpc, ht, e⟩
+  · rw [e] at hr; rcases hr with hr | ⟨_, hr⟩ <;> cases hr
+  · obtain ⟨hfm, hsid⟩ := find_flight hf
+    obtain ⟨new, c1, c2, _⟩ := RegSteps.claim_shape s.held ⟨sid, f.name⟩ f.keys h.struct.keysNodup
+    rw [hc] at c1; simp only at c1
+    have hheld : RegSteps.releaseAll held' ⟨sid, f.name⟩ = RegSteps.releaseAll s.held ⟨sid, f.name⟩ := by
+      rw [c1, RegSteps.releaseAll_append, releaseAll_all_held c2]; rfl
+    have hq := hi.quota sid
+    rw [e] at hq ⊢
+    refine ⟨f, hfm, hsid, by simp only [refund_held, CState.dropFlight]; rw [hheld]; rfl, by simp [CState.dropFlight],
+      by simp [CState.dropFlight], by simp [CState.dropFlight], ?_, ?_⟩
+    · rw [hq]
+      simp only [refund_own, refund_flights, CState.dropFlight, flightSum_filter_self, Nat.add_zero]
+      exact amt_eq s _ (by simp) _
+    · intro x hx
+      rw [quotaOf_refund, if_neg hx]; rfl
+  · rw [e] at hr; rcases hr with hr | ⟨_, hr⟩ <;> cases hr
+  · obtain ⟨hfm, hsid⟩ := find_flight hf
+    have hq := hi.quota sid
+    rw [e] at hq ⊢
+    refine ⟨f, hfm, hsid, by simp only [refund_held, CState.dropFlight]; rfl, by simp [CState.dropFlight],
+      by simp [CState.dropFlight], by simp [CState.dropFlight], ?_, ?_⟩
+    · rw [hq]
+      simp only [refund_own, refund_flights, CState.dropFlight, flightSum_filter_self, Nat.add_zero]
+      exact amt_eq s _ (by simp) _
+    · intro x hx
+      rw [quotaOf_refund, if_neg hx]; rfl
+  · rw [e] at hr; rcases hr with hr | ⟨_, hr⟩ <;> cases hr
+
+/-- when `Run` fails the held table is EXACTLY what it was (the object held nothing before `Run`) -/
+theorem run_conflict_restores {s : CState} (h : Inv s) (sid : Nat) (k : Key)
+    (hr : (s.step sid).2 = .conflict k) : (s.step sid).1.held = s.held := by
+  obtain ⟨f, hfm, hsid, h1, _⟩ := step_failure_releases h sid (Or.inr ⟨k, hr⟩)
+  rw [h1]
+  have hpc : f.pc = .checked := by
+    rcases step_cases s sid with ⟨_, e⟩ | ⟨g, _, _, hg, hpc, _, _⟩ | ⟨_, _, _, _, _, e⟩ |
+        ⟨_, _, _, _, e⟩ | ⟨_, _, _, _, e⟩
+    · rw [e] at hr; cases hr
+    · have := flight_eq h.struct hfm (find_flight hg).1 ((find_flight hg).2.trans hsid.symm)
+      rw [← this]; exact hpc
+    · rw [e] at hr; cases hr
+    · rw [e] at hr; cases hr
+    · rw [e] at hr; cases hr
+  have := checked_holds_nothing h.struct hfm hpc
+  rw [hsid] at this
+  exact RegSteps.releaseAll_none_held this
+
+/-- **explicit close by the owner** (handler idle): exactly the proxy's keys, its name and its own-table
+    entry go; its ports are given back to the session's counter -/
+theorem close_spec {s : CState} (h : Inv s) (sid : Nat) (name : Str) (hb : s.busy sid = false)
+    (ho : ∃ o ∈ s.own, o.sid = sid ∧ o.name = name) :
+    (s.close sid name).1.held = s.held.filter (fun e => e.2 ≠ ⟨sid, name⟩) ∧
+    (s.close sid name).1.names = s.names.filter (fun e => e.1 ≠ name) ∧
+    (s.close sid name).1.own = s.own.filter (fun o => ¬ (o.sid = sid ∧ o.name = name)) ∧
+    (s.close sid name).1.quotaOf sid = s.amt (ownSum (s.close sid name).1.own sid) ∧
+    (s.close sid name).1.nameTaken name = false := by
+  have hi := inv_close h sid name
+  rcases close_cases s sid name with ⟨hb', _⟩ | ⟨_, hn, _⟩ | ⟨o, _, _, _, _, e⟩
+  · rw [hb] at hb'; cases hb'
+  · exfalso
+    obtain ⟨o, hom, a, b⟩ := ho
+    have := List.find?_eq_none.mp hn o hom
+    simp [a, b] at this
+  · have hq := quota_exact_idle hi sid
+    rw [e] at hq ⊢
+    have hmax : ((s.refund sid o.n).dropProxy sid name).maxPorts = s.maxPorts := by simp [CState.dropProxy]
+    refine ⟨by simp [CState.dropProxy, RegSteps.releaseAll], by simp [CState.dropProxy],
+      by simp [CState.dropProxy], ?_, ?_⟩
+    · rw [hq (by simpa [CState.busy, CState.dropProxy] using hb)]
+      exact amt_eq s _ hmax _
+    · apply Bool.eq_false_iff.mpr
+      intro ht
+      rw [nameTaken_iff] at ht
+      obtain ⟨e', he', hn'⟩ := List.mem_map.mp ht
+      simp only [CState.dropProxy, refund_names, List.mem_filter, decide_eq_true_eq] at he'
+      exact he'.2 hn'
+
+/-- **the identical registration submitted afterwards succeeds**: in any reachable state where the
+    session is idle, the name and the keys are free (e.g. after the owner's close, `close_spec`) and the
+    ports fit under the limit on top of what the session really owns, the registration goes through all
+    its sections — it can never be refused for ports charged to a registration that failed earlier -/
+theorem retry_succeeds {s : CState} (h : Inv s) (sid : Nat) (name : Str) (keys : List Key) (n : Nat)
+    (hb : s.busy sid = false) (hn : s.nameTaken name = false) (hnd : keys.Nodup)
+    (hfree : ∀ k ∈ keys, k ∉ s.held.map (·.1))
+    (hfit : s.maxPorts = 0 ∨ ownSum s.own sid + n ≤ s.maxPorts) :
+    (s.begin sid name keys n).2 = .parked .checked ∧
+    ((s.begin sid name keys n).1.step sid).2 = .parked .ran ∧
+    (((s.begin sid name keys n).1.step sid).1.step sid).2 = .ok := by
+  have hq := quota_exact_idle h sid hb
+  rcases begin_cases s sid name keys n with ⟨hb', _⟩ | ⟨_, hq', _⟩ | ⟨_, _, ht, _⟩ | ⟨_, _, _, e⟩
+  · rw [hb] at hb'; cases hb'
+  · exfalso
+    rw [hq] at hq'
+    unfold CState.amt at hq'
+    rcases hfit with h0 | h0
+    · omega
+    · rw [if_pos hq'.1] at hq'; omega
+  · rw [hn] at ht; cases ht
+  · rw [e]
+    refine ⟨rfl, ?_⟩
+    simp only
+    -- section B
+    have hfind1 : ∀ (st : CState) (fl : List Flight) (f : Flight), f.sid = sid → st.flights = f :: fl →
+        st.flights.find? (fun g => g.sid = sid) = some f := by
+      intro st fl f hf hfl
+      rw [hfl]; exact List.find?_cons_of_pos (by simpa using hf)
+    rcases step_cases { s.charge sid n with
+        flights := { sid := sid, name := name, keys := keys, n := n, pc := .checked } :: (s.charge sid n).flights } sid
+      with ⟨hf, _⟩ | ⟨f, held', k, hf, _, hc, _⟩ | ⟨f, held', hf, _, hc, e2⟩ | ⟨f, hf, hpc, _, _⟩ | ⟨f, hf, hpc, _, _⟩
+    · rw [hfind1 _ _ _ rfl rfl] at hf; cases hf
+    · rw [hfind1 _ _ _ rfl rfl] at hf
+      injection hf with hf; subst hf
+      have := RegSteps.claim_free s.held ⟨sid, name⟩ keys hnd hfree
+      simp only [charge_held] at hc
+      rw [hc] at this; cases this
+    · rw [hfind1 _ _ _ rfl rfl] at hf
+      injection hf with hf; subst hf
+      rw [e2]
+      refine ⟨rfl, ?_⟩
+      simp only
+      -- section C
+      rcases step_cases { s.charge sid n with
+          held := held'
+          flights := { sid := sid, name := name, keys := keys, n := n, pc := .ran } ::
+            ({ sid := sid, name := name, keys := keys, n := n, pc := .checked } :: (s.charge sid n).flights).filter
+              (fun g => g.sid ≠ sid) } sid
+        with ⟨hf, _⟩ | ⟨f, _, _, hf, hpc, _, _⟩ | ⟨f, _, hf, hpc, _, _⟩ | ⟨f, hf, _, ht, _⟩ | ⟨f, hf, _, _, e3⟩
+      · rw [hfind1 _ _ _ rfl rfl] at hf; cases hf
+      · rw [hfind1 _ _ _ rfl rfl] at hf
+        injection hf with hf; subst hf; cases hpc
+      · rw [hfind1 _ _ _ rfl rfl] at hf
+        injection hf with hf; subst hf; cases hpc
+      · rw [hfind1 _ _ _ rfl rfl] at hf
+        injection hf with hf; subst hf
+        have : s.nameTaken name = true := by simpa [CState.nameTaken] using ht
+        rw [hn] at this; cases this
+      · rw [e3]
+    · rw [hfind1 _ _ _ rfl rfl] at hf
+      injection hf with hf; subst hf; cases hpc
+    · rw [hfind1 _ _ _ rfl rfl] at hf
+      injection hf with hf; subst hf; cases hpc
+
+/-- **nothing is left anywhere** once every registration has finished and every proxy was closed or its
+    session ended: all tables are empty and all quota counters are 0 — whatever happened before -/
+theorem quiescent_clean {s : CState} (h : Inv s) (hf : s.flights = []) (ho : s.own = []) :
+    s.held = [] ∧ s.names = [] ∧ ∀ x, s.quotaOf x = 0 := by
+  refine ⟨?_, ?_, ?_⟩
+  · apply List.eq_nil_iff_forall_not_mem.mpr
+    intro e he
+    rcases h.struct.holderKnown e he with ⟨o, hom, _⟩ | ⟨f, hfm, _⟩
+    · rw [ho] at hom; cases hom
+    · rw [hf] at hfm; cases hfm
+  · apply List.eq_nil_iff_forall_not_mem.mpr
+    intro e he
+    obtain ⟨o, hom, _⟩ := h.struct.namesOwned e he
+    rw [ho] at hom; cases hom
+  · intro x
+    rw [h.quota x, hf, ho]
+    unfold CState.amt; split <;> rfl
+
+/-! ### the executable predicate used by the driver (engine "regrace") -/
+
+/-- the state a record of owned proxies / registrations in flight accounts for: same tables, quota
+    counters recomputed from what each session owns or is registering -/
+def accountedQuota (s : CState) : List (Nat × Nat) :=
+  (s.own.map (·.sid) ++ s.flights.map (·.sid)).map
+    (fun x => (x, s.amt (ownSum s.own x + flightSum s.flights x)))
+
+def accounted (s : CState) : CState := { s with quota := accountedQuota s }
+
+def quotaRefusalJustified (s : CState) (sid n : Nat) : Bool :=
+  decide (s.maxPorts > 0 ∧ s.quotaOf sid + n > s.maxPorts)
+
+def keysFree (s : CState) (keys : List Key) : Bool :=
+  decide keys.Nodup && keys.all (fun k => (s.held.lookup k).isNone)
+
+theorem lookup_map_self (l : List Nat) (g : Nat → Nat) (x : Nat) :
+    (l.map (fun y => (y, g y))).lookup x = if x ∈ l then some (g x) else none := by
+  induction l with
+  | nil => rfl
+  | cons y ys ih =>
+    rw [List.map_cons, List.lookup_cons]
+    by_cases e : x = y
+    · subst e; simp
+    · have hb : (x == y) = false := by simpa using e
+      rw [hb, ih]
+      simp [e]
+
+theorem flightSum_none (l : List Flight) (sid : Nat) (h : sid ∉ l.map (·.sid)) : flightSum l sid = 0 := by
+  induction l with
+  | nil => rfl
+  | cons f fs ih =>
+    simp only [List.map_cons, List.mem_cons, not_or] at h
+    rw [flightSum_cons, if_neg (fun e => h.1 e.symm), ih h.2]
+
+theorem accounted_quotaOf (s : CState) (x : Nat) :
+    (accounted s).quotaOf x = s.amt (ownSum s.own x + flightSum s.flights x) := by
+  unfold accounted accountedQuota CState.quotaOf
+  simp only
+  rw [lookup_map_self]
+  split
+  · rfl
+  · rename_i hx
+    simp only [List.mem_append, not_or] at hx
+    rw [ownSum_none, flightSum_none _ _ hx.2]
+    · unfold CState.amt; split <;> rfl
+    · intro o ho e; exact hx.1 (List.mem_map.mpr ⟨o, ho, e⟩)
+
+/-- soundness of the predicate: on every reachable state of the model the accounted state and the
+    state agree on every table and every counter, so `rrView (accounted s) = rrView s` -/
+theorem accounted_sound {s : CState} (h : Inv s) :
+    (accounted s).held = s.held ∧ (accounted s).names = s.names ∧ (accounted s).own = s.own ∧
+    (accounted s).flights = s.flights ∧ ∀ x, (accounted s).quotaOf x = s.quotaOf x :=
+  ⟨rfl, rfl, rfl, rfl, fun x => by rw [accounted_quotaOf, h.quota x]⟩
+
+/-! non-vacuity: the name race of two sessions, the loser is refunded and can register again -/
+def pA : Key := ⟨.tcp, s "1"⟩
+def pB : Key := ⟨.tcp, s "2"⟩
+def race : List Op :=
+  [.begin 1 (s "p") [pA] 1, .begin 2 (s "p") [pB] 1, .step 1, .step 2, .step 1]
+
+example : ((race.foldl apply (CState.init 1)).step 2).2 = .inuse := by decide +kernel
+example : (((race.foldl apply (CState.init 1)).step 2).1.quotaOf 2) = 0 := by decide +kernel
+example : (((race.foldl apply (CState.init 1)).step 2).1.held.map (·.1)) = [pA] := by decide +kernel
+example : let s1 := (((race.foldl apply (CState.init 1)).step 2).1.close 1 (s "p")).1
+          (s1.begin 2 (s "p") [pB] 1).2 = .parked .checked := by decide +kernel
+
+end Conc
 
 end C10
 end Frp
